@@ -96,6 +96,49 @@ def type_map_imports() -> list[tuple[tuple[str, int], list[tuple[str, str]]]]:
     return out
 
 
+def _import_value(v) -> list[tuple[str, str]] | None:
+    """the Imports a class attribute holds: an Import, or a non-empty tuple / list / set / frozenset of Imports"""
+    from datamodel_code_generator.imports import Import
+
+    if isinstance(v, Import):
+        return [(v.from_ or "", v.import_)]
+    if isinstance(v, (tuple, list, set, frozenset)) and v and all(isinstance(x, Import) for x in v):
+        return sorted((x.from_ or "", x.import_) for x in v)
+    return None
+
+
+def class_import_attrs() -> list[tuple[tuple[str, int], list[tuple[str, str, str, list[tuple[str, str]]]]]]:
+    """for every (model type, version): every attribute of every selected class — as the class RESOLVES it (a subclass's
+    override hides the base's value), looked up statically (no property is evaluated) — whose value is an Import or a
+    collection of Imports: (role, class that defines the value, attribute, imports). DEFAULT_IMPORTS is one of them; a second
+    tuple next to it (imports of a newer construct, chosen by the same class selection) is another."""
+    from datamodel_code_generator import DataModelType
+    from datamodel_code_generator.format import PythonVersion
+    from datamodel_code_generator.model import get_data_model_types
+
+    out = []
+    for mt in DataModelType:
+        for ver in PythonVersion:
+            s = get_data_model_types(mt, ver)
+            rows = []
+            for r in ROLES:
+                c = getattr(s, r)
+                for name in sorted(dir(c)):
+                    if name.startswith("__"):
+                        continue
+                    try:
+                        v = inspect.getattr_static(c, name)
+                    except AttributeError:
+                        continue
+                    imps = _import_value(v)
+                    if imps is None:
+                        continue
+                    owner = next((b for b in c.__mro__ if name in vars(b)), c)
+                    rows.append((r, f"{owner.__module__}.{owner.__qualname__}", name, imps))
+            out.append(((mt.value, minor(ver.value)), rows))
+    return out
+
+
 def graphql_classes() -> list[tuple[str, dict]]:
     from datamodel_code_generator.parser.graphql import GraphQLParser
 
@@ -223,6 +266,14 @@ def generate() -> str:
         "/-- imports reachable from the type map of the selected DataTypeManager (all `Types`, with and without\n"
         "use_standard_collections / use_generic_container_types / use_pendulum) -/\n"
         "def typeMapImports : List ((Nat × Nat) × List (Nat × Nat)) :=\n  [" + ",\n   ".join(rows) + "]\n"
+    )
+    rows = []
+    for (mt, m), attrs in class_import_attrs():
+        rows.append(f"(({k(mt)}, {m}),\n    [" + ",\n     ".join(f"({k(r)}, {k(q)}, {k(a)}, {_imps(imps)})" for r, q, a, imps in attrs) + "])")
+    out.append(
+        "/-- every attribute of every selected class (as the class resolves it) that holds an Import or a collection of Imports:\n"
+        "((model type, minor), [(role, defining class, attribute, imports)]) -/\n"
+        "def classImportAttrs : List ((Nat × Nat) × List (Nat × Nat × Nat × List (Nat × Nat))) :=\n  [" + ",\n   ".join(rows) + "]\n"
     )
     out.append(
         "/-- default scalar / union model classes of `GraphQLParser.__init__` -/\n"
